@@ -156,6 +156,24 @@ func (c05) Build(tier string, seed uint64) []any {
 		c.Frames = 1
 		cs = append(cs, c)
 	}
+	// (strip) one dimension beyond 2^15 (more than one default 32768 x 32768 precinct per
+	// resolution level), zero and default decomposition levels
+	for i, g := range [][2]int{{40000, 1}, {1, 40000}, {33000, 3}, {3, 33000}, {65535, 1}, {32769, 2}, {32768, 1}, {40000, 2}} {
+		if !th && i >= 4 && (i+int(seed))%2 == 0 {
+			continue
+		}
+		r := gen.Sub(seed, "C05", "strip", i)
+		c := &c05Case{Gen: "strip", W: g[0], H: g[1]}
+		randC05Frame(r, c)
+		randC05Params(r, c)
+		c.PKind = gen.Pick(r, "typed", "generic")
+		c.Append = true
+		c.SPP, c.Frames = 1, 1
+		if i%2 == 0 {
+			c.Levels = 0
+		}
+		cs = append(cs, c)
+	}
 	for i := 0; i < nRand; i++ {
 		r := gen.Sub(seed, "C05", "rand", i)
 		c := &c05Case{Gen: "rand", W: 1 + r.Intn(600), H: 1 + r.Intn(600)}
